@@ -181,6 +181,11 @@ Proof.
 Qed.
 
 
+Lemma nth_in_concat {A} (l : list (list A)) k x : In x (nth k l []) -> In x (concat l).
+Proof.
+  revert k. induction l as [|a l IH]; intros [|k]; simpl; try tauto; intros H; apply in_or_app; eauto.
+Qed.
+
 Lemma nth_map_seq {A} (f : nat -> list A) n k : nth k (map f (seq 0 n)) [] = if k <? n then f k else [].
 Proof.
   destruct (k <? n) eqn:E.
@@ -327,15 +332,282 @@ Proof.
   destruct (k <? length sel); [|contradiction]. now apply filter_In in Hr as [Hr _].
 Qed.
 
-Theorem idset_order_irrelevant : forall P pi sigma1 sigma2,
-  sigma_ok P pi sigma1 -> sigma_ok P pi sigma2 -> idents P pi sigma1 = idents P pi sigma2.
+(* ================================================================== the NameSelector, one key at a time *)
+
+Definition item_key (it : item) : str * str := (i_dir it, i_base it).
+Definition item_has (K : str * str) (it : item) : bool := key_eqb (item_key it) K.
+
+Definition consistentP (rs : list req) : Prop :=
+  forall a b, In a rs -> In b rs -> r_id a = r_id b -> a = b.
+
+Lemma key_eqb_refl K : key_eqb K K = true.
+Proof. now apply key_eqb_eq. Qed.
+
+Lemma from_req_key r it : from_req r it -> item_key it = name_key r.
+Proof. intros (_ & Hd & Hb). unfold item_key, name_key. now rewrite Hd, Hb. Qed.
+
+Lemma find_item_filter K id l :
+  (forall it, In it l -> i_id it = id -> item_has K it = true) ->
+  find_item id l = find_item id (filter (item_has K) l).
 Proof.
-  intros P pi s1 s2 S1 S2. unfold idents, idents_enum. apply map_ext. intros id. f_equal.
-  unfold final_state, registration. f_equal.
-  apply (idset_irrelevant_of pipeline (sorted_enum P pi) (p_sets P) _ _ [] init).
-  - intros r [].
-  - apply (idsel_members pipeline (sorted_enum P pi) (p_idsel P)). now apply enum_sets_perm.
-  - apply (idsel_members pipeline (sorted_enum P pi) (p_idsel P)). now apply enum_sets_perm.
+  induction l as [|x l IH]; intros H; simpl; [reflexivity|].
+  destruct (Nat.eqb id (i_id x)) eqn:E.
+  - apply Nat.eqb_eq in E. rewrite (H x (or_introl eq_refl) (eq_sym E)). simpl.
+    apply Nat.eqb_eq in E. now rewrite E.
+  - destruct (item_has K x); simpl; [rewrite E|]; apply IH; intros it Hit; apply H; now right.
+Qed.
+
+Record FK (rs0 : list req) (K : str * str) (st sk : nstate) : Prop := {
+  fk_items : filter (item_has K) (items st) = items sk;
+  fk_count : count_get K (counts st) = count_get K (counts sk);
+  fk_prov : forall it, In it (items st) -> exists r, In r rs0 /\ from_req r it }.
+
+Lemma fk_same_id rs0 K st sk r :
+  consistentP rs0 -> In r rs0 -> FK rs0 K st sk ->
+  forall it, In it (items st) -> i_id it = r_id r -> item_key it = name_key r.
+Proof.
+  intros HC Hr F it Hit Hid. destruct (fk_prov _ _ _ _ F it Hit) as (r' & Hr' & Hf).
+  assert (r' = r) by (apply HC; auto; destruct Hf as (Hi & _); congruence).
+  subst. now apply from_req_key.
+Qed.
+
+Lemma get_name_fk_in rs0 K st sk r :
+  consistentP rs0 -> In r rs0 -> has_key K r = true -> FK rs0 K st sk ->
+  FK rs0 K (fst (get_name st r)) (fst (get_name sk r)).
+Proof.
+  intros HC Hr HK F. pose proof HK as HK'. apply key_eqb_eq in HK'.
+  assert (Efind : find_item (r_id r) (items st) = find_item (r_id r) (items sk)).
+  { rewrite <- (fk_items _ _ _ _ F). apply find_item_filter. intros it Hit Hid.
+    unfold item_has. rewrite (fk_same_id rs0 K st sk r HC Hr F it Hit Hid). exact HK. }
+  unfold get_name. rewrite <- Efind.
+  destruct (find_item (r_id r) (items st)) eqn:E; simpl; [exact F|].
+  unfold name_key in HK'. rewrite HK'. rewrite (fk_count _ _ _ _ F).
+  split; simpl.
+  - unfold item_has at 1, item_key. simpl. rewrite HK', key_eqb_refl. f_equal. exact (fk_items _ _ _ _ F).
+  - now rewrite !count_get_set_same.
+  - intros it [<-|Hit]; [|exact (fk_prov _ _ _ _ F it Hit)].
+    exists r. split; [assumption|]. repeat split; simpl; auto.
+Qed.
+
+Lemma get_name_fk_out rs0 K st sk r :
+  In r rs0 -> has_key K r = false -> FK rs0 K st sk -> FK rs0 K (fst (get_name st r)) sk.
+Proof.
+  intros Hr HK F. unfold get_name.
+  destruct (find_item (r_id r) (items st)) eqn:E; simpl; [exact F|].
+  assert (N : (r_dir r, final_name (r_name r)) <> K).
+  { intros X. unfold has_key, name_key in HK. rewrite X, key_eqb_refl in HK. discriminate. }
+  split; simpl.
+  - unfold item_has at 1, item_key. simpl.
+    destruct (key_eqb (r_dir r, final_name (r_name r)) K) eqn:E2;
+      [apply key_eqb_eq in E2; contradiction|]. exact (fk_items _ _ _ _ F).
+  - rewrite count_get_set_other by exact N. exact (fk_count _ _ _ _ F).
+  - intros it [<-|Hit]; [|exact (fk_prov _ _ _ _ F it Hit)].
+    exists r. split; [assumption|]. repeat split; reflexivity.
+Qed.
+
+Lemma run_fk rs0 K : consistentP rs0 -> forall rs st sk, incl rs rs0 -> FK rs0 K st sk ->
+  FK rs0 K (fst (run st rs)) (fst (run sk (filter (has_key K) rs))).
+Proof.
+  intros HC. induction rs as [|r rs IH]; intros st sk Hin F; simpl; [exact F|].
+  assert (Hr : In r rs0) by (apply Hin; now left).
+  assert (Hin' : incl rs rs0) by (intros x Hx; apply Hin; now right).
+  destruct (get_name st r) as [st1 n] eqn:G. destruct (run st1 rs) as [st2 ns] eqn:R. simpl.
+  destruct (has_key K r) eqn:HK; simpl.
+  - destruct (get_name sk r) as [sk1 n'] eqn:G'.
+    destruct (run sk1 (filter (has_key K) rs)) as [sk2 ns'] eqn:R'. simpl.
+    pose proof (get_name_fk_in rs0 K st sk r HC Hr HK F) as F1. rewrite G, G' in F1. simpl in F1.
+    specialize (IH st1 sk1 Hin' F1). now rewrite R, R' in IH.
+  - pose proof (get_name_fk_out rs0 K st sk r Hr HK F) as F1. rewrite G in F1. simpl in F1.
+    specialize (IH st1 sk Hin' F1). now rewrite R in IH.
+Qed.
+
+Lemma fk_init rs0 K : FK rs0 K init init.
+Proof. split; simpl; [reflexivity|reflexivity|intros it []]. Qed.
+
+(* the identifier of an entity is decided by the requests for its own (directory, name) alone *)
+Lemma ident_by_key rs r : consistentP rs -> In r rs ->
+  ident_in (fst (run init rs)) (r_id r)
+  = ident_in (fst (run init (filter (has_key (name_key r)) rs))) (r_id r).
+Proof.
+  intros HC Hr. set (K := name_key r).
+  pose proof (run_fk rs K HC rs init init (incl_refl _) (fk_init rs K)) as F.
+  unfold ident_in. f_equal. rewrite <- (fk_items _ _ _ _ F). apply find_item_filter.
+  intros it Hit Hid. unfold item_has. rewrite (fk_same_id rs K _ _ r HC Hr F it Hit Hid).
+  apply key_eqb_refl.
+Qed.
+
+Lemma absent_none rs id : ~ In id (map r_id rs) -> ident_in (fst (run init rs)) id = None.
+Proof.
+  intros Hid. destruct (run_spec rs init [] inv_init) as (_ & P & _); [intros it []|].
+  simpl in P. unfold ident_in.
+  destruct (find_item id (items (fst (run init rs)))) as [it|] eqn:F; [exfalso|reflexivity].
+  apply find_item_some in F as [F1 F2]. destruct (P it F1) as (r' & Hr' & (Fi & _)).
+  apply Hid. rewrite <- F2, Fi. now apply in_map.
+Qed.
+
+(* soundness of the boolean hypotheses *)
+Lemma consistentb_sound P : consistentb P = true -> consistentP (all_reqs P).
+Proof.
+  unfold consistentb. rewrite forallb_forall. intros H a b Ha Hb E.
+  specialize (H a Ha). rewrite forallb_forall in H. specialize (H b Hb).
+  apply Nat.eqb_eq in E. rewrite E in H. now apply req_eqb_eq.
+Qed.
+
+Lemma consistentP_incl rs rs' : consistentP rs -> incl rs' rs -> consistentP rs'.
+Proof. intros H I a b Ha Hb. apply H; now apply I. Qed.
+
+
+(* ------------------------------------------------------------------ one key of a whole run *)
+
+Definition filter_file (K : str * str) (f : pfile) : pfile :=
+  {| f_path := f_path f; f_segs := map (filter (has_key K)) (f_segs f) |}.
+
+Lemma nth_map_filter {A} (p : A -> bool) (l : list (list A)) k :
+  nth k (map (filter p) l) [] = filter p (nth k l []).
+Proof. change (@nil A) with (filter p []) at 1. apply map_nth. Qed.
+
+Lemma seg_filter_file K k f : seg k (filter_file K f) = filter (has_key K) (seg k f).
+Proof. unfold seg, filter_file. simpl. apply nth_map_filter. Qed.
+
+Lemma filter_flat_map {A B} (p : B -> bool) (f : A -> list B) l :
+  filter p (flat_map f l) = flat_map (fun x => filter p (f x)) l.
+Proof. induction l as [|x l IH]; simpl; [reflexivity|]. now rewrite filter_app, IH. Qed.
+
+Lemma flat_seg_filter K k enum :
+  flat_map (seg k) (map (filter_file K) enum) = filter (has_key K) (flat_map (seg k) enum).
+Proof.
+  rewrite filter_flat_map. induction enum as [|f enum IH]; simpl; [reflexivity|].
+  now rewrite seg_filter_file, IH.
+Qed.
+
+Lemma registration_filter K pl enum fixed t :
+  filter (has_key K) (registration_of pl enum fixed t)
+  = registration_of pl (map (filter_file K) enum) (map (filter (has_key K)) fixed)
+                    (map (filter (has_key K)) t).
+Proof.
+  unfold registration_of. rewrite filter_flat_map. apply flat_map_ext. intros [k|k|k]; simpl.
+  - now rewrite flat_seg_filter.
+  - now rewrite nth_map_filter.
+  - now rewrite nth_map_filter.
+Qed.
+
+Lemma seen_before_filter K pl enum k : forall acc,
+  seen_before pl (map (filter_file K) enum) k (filter (has_key K) acc)
+  = filter (has_key K) (seen_before pl enum k acc).
+Proof.
+  induction pl as [|[j|j|j] pl IH]; intros acc; simpl; auto.
+  - rewrite flat_seg_filter, <- filter_app. apply IH.
+  - destruct (Nat.eqb j k); auto.
+Qed.
+
+Lemma key_equiv_members a b r : key_equiv a b -> In r a -> In r b.
+Proof.
+  intros H Hr. assert (X : In r (filter (has_key (name_key r)) a)).
+  { apply filter_In. split; [assumption|apply key_eqb_refl]. }
+  rewrite (H (name_key r)) in X. now apply filter_In in X as [X _].
+Qed.
+
+Lemma key_equiv_sym a b : key_equiv a b -> key_equiv b a.
+Proof. intros H K. symmetry. apply H. Qed.
+
+Lemma fixed_filter_eq K F1 F2 :
+  Forall2 key_equiv F1 F2 -> map (filter (has_key K)) F1 = map (filter (has_key K)) F2.
+Proof. induction 1 as [|a b F1 F2 Hab _ IH]; simpl; [reflexivity|]. now rewrite (Hab K), IH. Qed.
+
+Lemma nth_forall2 {A} (R : list A -> list A -> Prop) (l1 l2 : list (list A)) :
+  R [] [] -> Forall2 R l1 l2 -> forall k, R (nth k l1 []) (nth k l2 []).
+Proof. intros R0. induction 1; intros [|k]; simpl; auto. Qed.
+
+Lemma phase_in_all P enum F t ph r :
+  Permutation enum (p_files P) -> Forall2 key_equiv F (p_sets P) ->
+  (forall k x, In x (nth k t []) -> In x (flat_map file_reqs (p_files P))) ->
+  In r (phase_reqs enum F t ph) -> In r (all_reqs P).
+Proof.
+  intros HE HF HT Hr. unfold all_reqs. destruct ph as [k|k|k]; simpl in Hr.
+  - apply in_or_app. left. apply in_flat_map in Hr as (f & Hf & Hr).
+    apply in_flat_map. exists f. split; [now apply (Permutation_in _ HE)|].
+    unfold file_reqs. eapply nth_in_concat. exact Hr.
+  - apply in_or_app. left. eapply HT. exact Hr.
+  - apply in_or_app. right. apply (nth_in_concat (p_sets P) k).
+    refine (key_equiv_members _ _ r _ Hr).
+    apply (nth_forall2 key_equiv F (p_sets P)); [intros K; reflexivity|assumption].
+Qed.
+
+Lemma seen_before_in_files pl enum k : forall acc r,
+  (forall x, In x acc -> exists f j, In f enum /\ In x (seg j f)) ->
+  In r (seen_before pl enum k acc) -> exists f j, In f enum /\ In r (seg j f).
+Proof.
+  induction pl as [|[j|j|j] pl IH]; intros acc r HA Hr; simpl in Hr; auto.
+  - apply (IH (acc ++ flat_map (seg j) enum)); [|assumption].
+    intros x Hx. apply in_app_or in Hx as [Hx|Hx]; [auto|].
+    apply in_flat_map in Hx as (f & Hf & Hx). eauto.
+  - destruct (Nat.eqb j k); eauto.
+  - eauto.
+Qed.
+
+(* MAIN LEMMA: for any sequence of phases and any enumeration, two runs whose fixed phases agree key
+   by key and whose id-set phases ask (in any order) for selected entities give every entity the
+   same identifier *)
+Lemma run_deterministic_of pl P enum F1 F2 t1 t2 :
+  consistentb P = true -> Permutation enum (p_files P) ->
+  Forall2 key_equiv F1 (p_sets P) -> Forall2 key_equiv F2 (p_sets P) ->
+  Forall2 (@Permutation req) t1 (idsel_of pl enum (p_idsel P)) ->
+  Forall2 (@Permutation req) t2 (idsel_of pl enum (p_idsel P)) ->
+  forall id, ident_in (fst (run init (registration_of pl enum F1 t1))) id
+           = ident_in (fst (run init (registration_of pl enum F2 t2))) id.
+Proof.
+  intros HCb HE HF1 HF2 HT1 HT2 id.
+  pose proof (consistentb_sound P HCb) as HC.
+  set (A := registration_of pl enum F1 t1). set (B := registration_of pl enum F2 t2).
+  assert (TIN : forall t, Forall2 (@Permutation req) t (idsel_of pl enum (p_idsel P)) ->
+                forall k x, In x (nth k t []) -> In x (flat_map file_reqs (p_files P))).
+  { intros t Ht k x Hx. pose proof (idsel_members pl enum (p_idsel P) t Ht k x Hx) as Hs.
+    destruct (seen_before_in_files pl enum k [] x) as (f & j & Hf & Hxj); [intros y []|assumption|].
+    apply in_flat_map. exists f. split; [now apply (Permutation_in _ HE)|].
+    unfold file_reqs. eapply nth_in_concat. exact Hxj. }
+  assert (InA : forall r, In r A -> In r (all_reqs P)).
+  { intros r Hr. unfold A, registration_of in Hr. apply in_flat_map in Hr as (ph & _ & Hr).
+    exact (phase_in_all P enum F1 t1 ph r HE HF1 (TIN t1 HT1) Hr). }
+  assert (InB : forall r, In r B -> In r (all_reqs P)).
+  { intros r Hr. unfold B, registration_of in Hr. apply in_flat_map in Hr as (ph & _ & Hr).
+    exact (phase_in_all P enum F2 t2 ph r HE HF2 (TIN t2 HT2) Hr). }
+  assert (HF12 : Forall2 key_equiv F1 F2).
+  { clear - HF1 HF2. revert F2 HF2. induction HF1 as [|a b F1 S Hab _ IH]; intros F2 HF2;
+      inversion HF2; subst; constructor; [|now apply IH].
+    intros K. rewrite (Hab K). symmetry. auto. }
+  assert (HT12 : Forall2 (@Permutation req) t1 t2).
+  { eapply Forall2_perm_trans; [exact HT1|now apply Forall2_perm_sym]. }
+  assert (AB : forall r, In r A <-> In r B).
+  { intros r. unfold A, B, registration_of. rewrite !in_flat_map.
+    split; intros (ph & Hph & Hr); exists ph; (split; [assumption|]); destruct ph as [k|k|k]; simpl in *; auto.
+    - apply (Permutation_in _ (nth_perm _ _ HT12 k) Hr).
+    - refine (key_equiv_members _ _ r _ Hr).
+      apply (nth_forall2 key_equiv F1 F2); [intros K; reflexivity|assumption].
+    - apply (Permutation_in _ (Permutation_sym (nth_perm _ _ HT12 k)) Hr).
+    - refine (key_equiv_members _ _ r _ Hr). apply key_equiv_sym.
+      apply (nth_forall2 key_equiv F1 F2); [intros K; reflexivity|assumption]. }
+  assert (CA : consistentP A) by (apply (consistentP_incl (all_reqs P)); auto).
+  assert (CB : consistentP B) by (apply (consistentP_incl (all_reqs P)); auto).
+  destruct (in_dec Nat.eq_dec id (map r_id A)) as [Hin|Hout].
+  2:{ rewrite (absent_none A id Hout). symmetry. apply absent_none. intros Hin. apply Hout.
+      apply in_map_iff in Hin as (r & <- & Hr). apply in_map. now apply AB. }
+  apply in_map_iff in Hin as (r & <- & HrA). assert (HrB : In r B) by now apply AB.
+  rewrite (ident_by_key A r CA HrA), (ident_by_key B r CB HrB).
+  set (K := name_key r). unfold A, B. rewrite !registration_filter.
+  rewrite (fixed_filter_eq K F1 F2 HF12). f_equal.
+  apply (idset_irrelevant_of pl (map (filter_file K) enum) _ _ _ [] init).
+  - intros x [].
+  - intros k x Hx. rewrite nth_map_filter in Hx. apply filter_In in Hx as [Hx Kx].
+    change (@nil req) with (filter (has_key K) []). rewrite seen_before_filter.
+    apply filter_In. split; [|assumption]. exact (idsel_members pl enum (p_idsel P) t1 HT1 k x Hx).
+  - intros k x Hx. rewrite nth_map_filter in Hx. apply filter_In in Hx as [Hx Kx].
+    change (@nil req) with (filter (has_key K) []). rewrite seen_before_filter.
+    apply filter_In. split; [|assumption]. exact (idsel_members pl enum (p_idsel P) t2 HT2 k x Hx).
+Qed.
+
+Lemma sorted_enum_perm P pi : is_perm pi (length (p_files P)) -> Permutation (sorted_enum P pi) (p_files P).
+Proof.
+  intros H. unfold sorted_enum. eapply perm_trans; [apply Permutation_sym, isort_perm|now apply enumerate_perm].
 Qed.
 
 (* by-file phases: the order in which the set of source files is iterated does not matter *)
@@ -345,17 +617,31 @@ Lemma sorted_enum_canonical P pi1 pi2 :
   sorted_enum P pi1 = sorted_enum P pi2.
 Proof. intros. now apply sorted_enumeration_canonical. Qed.
 
-(* MAIN THEOREM: the full statement *)
-Theorem deterministic : forall P pi1 pi2 sigma1 sigma2,
-  NoDup (map f_path (p_files P)) ->
-  is_perm pi1 (length (p_files P)) -> is_perm pi2 (length (p_files P)) ->
-  sigma_ok P pi1 sigma1 -> sigma_ok P pi2 sigma2 ->
-  idents P pi1 sigma1 = idents P pi2 sigma2.
+(* set-ordered phases and the free order inside the fixed phases *)
+Theorem set_order_irrelevant : forall P pi sigma1 sigma2 F1 F2,
+  consistentb P = true -> is_perm pi (length (p_files P)) ->
+  sigma_ok P pi sigma1 -> sigma_ok P pi sigma2 -> fixed_ok P F1 -> fixed_ok P F2 ->
+  idents P pi sigma1 F1 = idents P pi sigma2 F2.
 Proof.
-  intros P pi1 pi2 s1 s2 ND H1 H2 S1 S2.
-  rewrite (idset_order_irrelevant P pi1 s1 s2 S1).
-  - unfold idents, idsel. now rewrite (sorted_enum_canonical P pi1 pi2).
-  - unfold sigma_ok, idsel in *. now rewrite (sorted_enum_canonical P pi1 pi2).
+  intros P pi s1 s2 F1 F2 HC Hp S1 S2 HF1 HF2. unfold idents, idents_enum. apply map_ext. intros id. f_equal.
+  unfold final_state, registration.
+  apply (run_deterministic_of pipeline P); auto using sorted_enum_perm.
+  - apply enum_sets_perm. exact S1.
+  - apply enum_sets_perm. exact S2.
+Qed.
+
+(* MAIN THEOREM: the full statement *)
+Theorem deterministic : forall P pi1 pi2 sigma1 sigma2 F1 F2,
+  consistentb P = true -> NoDup (map f_path (p_files P)) ->
+  is_perm pi1 (length (p_files P)) -> is_perm pi2 (length (p_files P)) ->
+  sigma_ok P pi1 sigma1 -> sigma_ok P pi2 sigma2 -> fixed_ok P F1 -> fixed_ok P F2 ->
+  idents P pi1 sigma1 F1 = idents P pi2 sigma2 F2.
+Proof.
+  intros P pi1 pi2 s1 s2 F1 F2 HC ND H1 H2 S1 S2 HF1 HF2.
+  assert (E : sorted_enum P pi1 = sorted_enum P pi2) by now apply sorted_enum_canonical.
+  assert (S2' : sigma_ok P pi1 s2) by (unfold sigma_ok, idsel in *; now rewrite E).
+  rewrite (set_order_irrelevant P pi1 s1 s2 F1 F2 HC H1 S1 S2' HF1 HF2).
+  unfold idents, idsel. now rewrite E.
 Qed.
 
 (* the same for any total, transitive order that separates the files *)
@@ -440,13 +726,14 @@ Proof.
 Qed.
 
 (* moving the whole project (all source files below one root) changes nothing *)
-Theorem location_irrelevant : forall root P pi sigma,
-  idents (relocate root P) pi sigma = idents P pi sigma.
+Theorem location_irrelevant : forall root P pi sigma F,
+  idents (relocate root P) pi sigma F = idents P pi sigma F.
 Proof.
-  intros root P pi sigma. unfold idents, idsel. rewrite sorted_enum_relocate.
+  intros root P pi sigma F. unfold idents, idsel. rewrite sorted_enum_relocate.
   assert (E : idsel_of pipeline (map (relocate_file root) (sorted_enum P pi)) (p_idsel (relocate root P))
               = idsel_of pipeline (sorted_enum P pi) (p_idsel P)).
-  { unfold idsel_of. simpl. apply map_ext. intros k. now rewrite seen_before_relocate. }
+  { unfold idsel_of. change (p_idsel (relocate root P)) with (p_idsel P).
+    apply map_ext. intros k. now rewrite seen_before_relocate. }
   rewrite E. unfold idents_enum, ent_ids. rewrite all_reqs_relocate.
   apply map_ext. intros id. f_equal. unfold final_state, registration.
   now rewrite registration_relocate.
@@ -483,8 +770,8 @@ Proof. split; vm_compute; reflexivity. Qed.
 
 (* ... now a.f90 always comes first *)
 Lemma clash_project_sorted :
-  idents clash_project [0; 1] [] = idents clash_project [1; 0] [] /\
-  idents clash_project [1; 0] [] =
+  idents clash_project [0; 1] [] [] = idents clash_project [1; 0] [] [] /\
+  idents clash_project [1; 0] [] [] =
     [(1, Some (s "a.f90")); (2, Some (s "ma")); (3, Some (s "x"));
      (4, Some (s "b.f90")); (5, Some (s "mb")); (6, Some (s "x~2"))].
 Proof. split; vm_compute; reflexivity. Qed.
@@ -536,8 +823,10 @@ Example twins_project_ok :
   is_perm [1; 0] (length (p_files twins_project)) /\
   idsel twins_project [1; 0] = [[mkr 1 (s "module") (s "m"); mkr 2 (s "module") (s "m")]] /\
   sigma_ok twins_project [1; 0] [[1; 0]] /\ sigma_ok twins_project [0; 1] [[0; 1]] /\
-  idents twins_project [1; 0] [[1; 0]] = idents twins_project [0; 1] [[0; 1]] /\
-  idents twins_project [1; 0] [[1; 0]] =
+  fixed_ok twins_project (p_sets twins_project) /\ consistentb twins_project = true /\
+  idents twins_project [1; 0] [[1; 0]] (p_sets twins_project)
+    = idents twins_project [0; 1] [[0; 1]] (p_sets twins_project) /\
+  idents twins_project [1; 0] [[1; 0]] (p_sets twins_project) =
     [(3, Some (s "x")); (1, Some (s "m")); (4, Some (s "x~2")); (2, Some (s "m~2")); (5, Some (s "t"))].
 Proof.
   assert (E1 : idsel twins_project [1; 0] = [[mkr 1 (s "module") (s "m"); mkr 2 (s "module") (s "m")]])
@@ -548,6 +837,7 @@ Proof.
   split; [apply perm_swap|]. split; [exact E1|].
   split; [unfold sigma_ok; rewrite E1; repeat constructor; apply perm_swap|].
   split; [unfold sigma_ok; rewrite E0; repeat constructor; apply Permutation_refl|].
+  split; [repeat constructor; intros K; reflexivity|]. split; [vm_compute; reflexivity|].
   split; vm_compute; reflexivity.
 Qed.
 
@@ -634,6 +924,40 @@ Proof.
   - do 2 apply perm_skip. apply perm_swap.
 Qed.
 
+(* the rows of the table that replaces an oversized graph are a function of the set of neighbours *)
+Theorem table_rows_sorted : forall neighbours pi1 pi2,
+  NoDup (map fst neighbours) ->
+  is_perm pi1 (length neighbours) -> is_perm pi2 (length neighbours) ->
+  emit_table_rows neighbours pi1 = emit_table_rows neighbours pi2.
+Proof.
+  intros nb pi1 pi2 ND H1 H2. unfold emit_table_rows. f_equal.
+  apply isort_perm_invariant.
+  - intros a b. apply str_leb_total.
+  - intros a b c. apply str_leb_trans.
+  - eapply perm_trans; [now apply enumerate_perm|now apply Permutation_sym, enumerate_perm].
+  - intros a b Ha Hb L1 L2.
+    apply (Permutation_in _ (enumerate_perm nb pi1 H1)) in Ha, Hb.
+    apply (NoDup_map_inj_in fst nb); auto. now apply str_leb_antisym.
+Qed.
+
+Example table_rows_example :
+  emit_table_rows [(s "proc~init~2", s "init"); (s "proc~alpha", s "Alpha"); (s "proc~init", s "init");
+                   (s "proc~init~3", s "Init")] [3; 0; 2; 1]
+  = [(s "proc~alpha", s "Alpha"); (s "proc~init", s "init"); (s "proc~init~2", s "init");
+     (s "proc~init~3", s "Init")].
+Proof. vm_compute. reflexivity. Qed.
+
+(* sorting the set by label alone would leave equally labelled neighbours in set order *)
+Lemma table_rows_from_set_refuted :
+  exists neighbours pi1 pi2,
+    NoDup (map fst neighbours) /\ is_perm pi1 (length neighbours) /\ is_perm pi2 (length neighbours) /\
+    emit_table_rows_from_set neighbours pi1 <> emit_table_rows_from_set neighbours pi2.
+Proof.
+  exists [(s "proc~init", s "init"); (s "proc~init~2", s "init")], [0; 1], [1; 0].
+  split; [simpl; repeat constructor; simpl; intuition discriminate|].
+  split; [apply Permutation_refl|]. split; [apply perm_swap|]. vm_compute. intros H. discriminate H.
+Qed.
+
 (* ================================================================== writeout *)
 
 Lemma prefixb_app out x : prefixb out (out ++ x) = true.
@@ -705,7 +1029,8 @@ Lemma unsorted_statement_refuted :
 Proof.
   intros H. destruct clash_project_perms as (P1 & P2 & _).
   specialize (H clash_project [0; 1] [1; 0] [] P1 P2).
-  destruct clash_project_unsorted as [E1 E2]. rewrite E1, E2 in H. discriminate.
+  destruct clash_project_unsorted as [E1 E2]. rewrite E1, E2 in H.
+  apply (f_equal (fun l => nth 2 l (0, None))) in H. vm_compute in H. discriminate H.
 Qed.
 
 (* what the toposort repair repaired: a set-ordered loop that is the first to ask *)
@@ -717,7 +1042,8 @@ Lemma free_sets_statement_refuted :
 Proof.
   intros H. destruct twins_before_differ as (P1 & S1 & S2 & E1 & E2).
   specialize (H twins_before [0; 1] [[0; 1]] [[1; 0]] P1 S1 S2).
-  rewrite E1, E2 in H. discriminate.
+  rewrite E1, E2 in H.
+  apply (f_equal (fun l => nth 0 l (0, None))) in H. vm_compute in H. discriminate H.
 Qed.
 
 Lemma uses_unsorted_refuted :
